@@ -51,7 +51,7 @@ def random_schedule(rng, tid, nprocs):
 
 def apalache_inductive(c, out):
     """(A2) spec/apalache/CacheInd.tla: the safety half of P19 as an INDUCTIVE invariant of DatasetCache.tla (the module TLC
-    explores and Trace_Cache reuses), discharged by Apalache for a larger population than TLC can enumerate (quick: 4 loaders +
+    explores and Trace_Cache reuses), discharged by Apalache for a larger population than TLC can enumerate (quick: 3 loaders +
     1 probe, 2 datasets; thorough: 8 + 2, 3 datasets), any depth, any network behaviour, n_retries 0..3: base case, inductive
     step, and a negative control (the invariant without the facts about the dump / rename boundaries must NOT be inductive,
     otherwise the step check is vacuous).  A failed base / step or a passing control is a fault of the specification (exit 2);
